@@ -320,6 +320,9 @@ class CFG:
         """CFG nodes that evaluate the AST `node` (an expression or statement)."""
         out = []
         for n in self.nodes:
+            if n.stmt is node and n.kind not in ("with_exit", "fin_end", "dispatch", "handler"):
+                out.append(n)
+                continue
             for e in n.exprs:
                 if e is node or any(c is node for c in ast.walk(e)):
                     out.append(n)
